@@ -6,6 +6,8 @@ toolchain go1.23.5
 
 require (
 	cosmossdk.io/math v1.1.2
+	github.com/CosmWasm/wasmd v0.41.0
+	github.com/CosmWasm/wasmvm v1.3.0
 	github.com/comdex-official/comdex v0.0.0
 	github.com/cometbft/cometbft v0.37.2
 	github.com/cometbft/cometbft-db v0.8.0
@@ -27,8 +29,6 @@ require (
 	filippo.io/edwards25519 v1.0.0 // indirect
 	github.com/99designs/keyring v1.2.2 // indirect
 	github.com/ChainSafe/go-schnorrkel v0.0.0-20200405005733-88cbf1b4c40d // indirect
-	github.com/CosmWasm/wasmd v0.41.0 // indirect
-	github.com/CosmWasm/wasmvm v1.3.0 // indirect
 	github.com/armon/go-metrics v0.4.1 // indirect
 	github.com/aws/aws-sdk-go v1.44.203 // indirect
 	github.com/bandprotocol/bandchain-packet v0.0.3 // indirect
